@@ -415,6 +415,9 @@ func hsOracle(r *Run, prop string, sc *hsScript) (nontrivial bool) {
 		}
 	case "C02", "C11":
 		nontrivial = true
+		if sendFailed && len(sc.wire) > 0 && strings.HasPrefix(sc.wire[len(sc.wire)-1], "T0[") {
+			r.Violate("http-server/stream/ok-trailer-after-lost-response", "a response that is lost, truncated or cannot be encoded or decoded is always reported as an error", sprintf("a SendMsg failed (the response was not sent), yet the reply ends with an OK trailer: wire %s", wire), desc, line)
+		}
 		if intact {
 			want := map[string]string{"nil": "0", "plain": "2", "ctx:canceled": "1", "ctx:deadline": "4", "status:0": "13"}[retArg]
 			if want == "" {
